@@ -236,7 +236,7 @@ class Runner:
         self.exe, err = impl_build(self.flavour)
         return err
 
-    def run(self, scripts, variant=None, timeout=240):
+    def run(self, scripts, variant=None, timeout=900):
         """scripts: list of (id, [lines]).  Returns (model blocks, impl blocks)."""
         self.n += 1
         base = os.path.join(self.work, "b%d_%d" % (os.getpid(), self.n))
@@ -257,7 +257,7 @@ class Runner:
                 pass
         return m, i
 
-    def run_impl_only(self, scripts, env=None, extra=(), prefix=(), timeout=240):
+    def run_impl_only(self, scripts, env=None, extra=(), prefix=(), timeout=900):
         self.n += 1
         base = os.path.join(self.work, "e%d_%d" % (os.getpid(), self.n))
         inf, io = base + ".in", base + ".impl"
